@@ -86,6 +86,9 @@ package capnp
 //@ }
 //@ func wfList(l List) bool { return wfListB(l) && (l.seg == nil || l.length >= 0) }
 //@ func wfPtr(p Ptr) bool {
+//@ 	if p.flags.ptrType() > interfacePtrType {
+//@ 		return false
+//@ 	}
 //@ 	switch p.flags.ptrType() {
 //@ 	case structPtrType:
 //@ 		return wfStruct(p.Struct())
